@@ -249,6 +249,7 @@ package engine
 //@   requires v.Value != nil
 //@   ensures result is ValueHashMap && fresh((result as ValueHashMap).Value) && domain((result as ValueHashMap).Value) == domain(v.Value)
 //@   ensures forall k Str :: { select(values((result as ValueHashMap).Value), k) } has(v.Value, k) && (v.Value[k] is ValueString) ==> (result as ValueHashMap).Value[k] == v.Value[k]
+//@   ensures kinds: forall k Str :: { select(values((result as ValueHashMap).Value), k) } has(v.Value, k) && v.Value[k] != nil ==> (result as ValueHashMap).Value[k] != nil && (((result as ValueHashMap).Value[k] is ValueString) == (v.Value[k] is ValueString)) [C05]
 
 //@ pred noNamedLoop(es *SearchEngineState) := forall k :: { es.loopStack.store[k].name } 0 <= k && k < len(es.loopStack.store) ==> es.loopStack.store[k].name == ""
 
@@ -658,12 +659,17 @@ package engine
 //@ pred matchOk(m Match, d Str, f Str) := 0 <= m.Offset.Start && m.Offset.Start < m.Offset.End && m.Offset.End <= len(d) && m.Value == ssub(d, m.Offset.Start, m.Offset.End) && m.Filename == f
 //@    && (asciiText(d) ==> m.Line.Start == lineOf(d, m.Offset.Start) && m.Line.End == lineOf(d, m.Offset.End) && m.Column.Start == colOf(d, m.Offset.Start) && m.Column.End == colOf(d, m.Offset.End))
 
-//@ func findMatches [C03 C09 C10 C04 C13]
+//@ func findMatches [C03 C09 C10 C04 C13 C05]
 //@   requires reader != nil && rdInv(reader) && skip >= 0 && take >= 0 && last >= 0
 //@   let d := rdData(reader)
 //@   modifies inferred
 //@   ensures each: forall k :: { result[k] } 0 <= k && k < len(result) ==> matchOk(result[k], d, filename)
 //@   ensures ordered: forall k :: { result[k] } { result[k + 1] } 0 <= k && k + 1 < len(result) ==> result[k].Offset.End <= result[k + 1].Offset.Start && result[k + 1].MatchNumber == result[k].MatchNumber + 1
+//@   assumes vars: forall k :: { result[k] } 0 <= k && k < len(result) ==> varsOk(result[k].Variables) [C05]
+//@   ensures reader: rdInv(reader) && rdData(reader) == d
+//@   ensures norepl: forall k :: { result[k] } 0 <= k && k < len(result) ==> !result[k].Replacement.hasValue [C05]
+//@   loop 1 invariant norepl: forall k :: { matches.store[k] } 0 <= k && k < len(matches.store) ==> !matches.store[k].Replacement.hasValue [C05]
+//@   loop 2 invariant norepl: forall k :: { matches.store[k] } 0 <= k && k < len(matches.store) ==> !matches.store[k].Replacement.hasValue [C05]
 //@   ensures lastwindow: last != 0 ==> len(result) <= last [C04]
 //@   ensures takewindow: !all && last == 0 ==> len(result) <= take [C04]
 //@   ensures skipfirst: len(result) > 0 ==> result[0].MatchNumber > skip [C04]
@@ -733,3 +739,100 @@ package engine
 //@ func (Matches).Print [C18]
 //@   trusted
 //@   modifies *
+
+// ---- the replacer: each instruction appends the text of its `with` item (C05) ----
+//@ pred replText(m Match) := m.Replacement.hasValue ? m.Replacement.data : ""
+//@ pred sameMatchBut(a Match, b Match) := a.Filename == b.Filename && a.MatchNumber == b.MatchNumber && a.Offset == b.Offset && a.Line == b.Line && a.Column == b.Column && a.Value == b.Value && a.Variables == b.Variables
+// the text a name contributes: the value of that variable of the match if it is a string, else nothing
+//@ pred isStrVar(vars ValueHashMap, n Str) := has(vars.Value, n) && (vars.Value[n] is ValueString)
+//@ pred varText(vars ValueHashMap, n Str) := isStrVar(vars, n) ? (vars.Value[n] as ValueString).Value : ""
+//@ pred varsOk(vars ValueHashMap) := vars.Value != nil && forall k Str :: { select(values(vars.Value), k) } has(vars.Value, k) ==> vars.Value[k] != nil
+//@ pred stepped(r *ReplacerState, c ReplacerState) := r != nil && r.programCounter == c.programCounter + 1 && r.variables == c.variables && sameMatchBut(r.match, c.match)
+
+// what a name denotes in a `with` list: the built-ins of the match, else its capture of that name
+//@ pred replVar(m Match, total Int, n Str) := n == "totalMatches" ? itoa(total) : (n == "matchNumber" ? itoa(m.MatchNumber) : (n == "startOffset" ? itoa(m.Offset.Start) : (n == "endOffset" ? itoa(m.Offset.End) : (n == "lineNumber" ? itoa(m.Line.Start) : (n == "columnNumber" ? itoa(m.Column.Start) : (n == "value" ? m.Value : (n == "filename" ? m.Filename : varText(m.Variables, n))))))))
+//@ func InitReplacerState [C05]
+//@   requires varsOk(match.Variables)
+//@   ensures state: result != nil && fresh(result) && result.programCounter == 0 && result.match == match && varsOk(result.variables) && fresh(result.variables.Value)
+//@   ensures names: forall n Str :: { select(values(result.variables.Value), n) } { select(domain(result.variables.Value), n) } varText(result.variables, n) == replVar(match, totalMatches, n)
+
+//@ func (ValueHashMap).Keys [C05]
+//@   trusted
+//@   ensures sound: forall j :: { result[j] } 0 <= j && j < len(result) ==> has(v.Value, result[j])
+//@   ensures fresh: fresh(result) || len(result) == 0
+
+//@ func executeReplaceString [C05]
+//@   requires current_state != nil
+//@   ensures step: fresh(result) && stepped(result, *current_state)
+//@   ensures text: result.match.Replacement.hasValue && replText(result.match) == replText(current_state.match) ++ i.Value
+//@ func executeReplaceVariable [C05]
+//@   requires current_state != nil && varsOk(current_state.variables)
+//@   ensures step: fresh(result) && stepped(result, *current_state)
+//@   ensures text: replText(result.match) == replText(current_state.match) ++ varText(current_state.variables, i.Name)
+//@   ensures nothing: !isStrVar(current_state.variables, i.Name) ==> result.match.Replacement == current_state.match.Replacement
+// a transform runs on an environment of its own, built from this match: its string variables,
+// and match / matchLength / matchNumber; what it returns is appended
+//@ pred envOf(env map[string]ProcessValue, vars ValueHashMap, m Match) :=
+//@    env["match"] == box(ProcessValueString, mk(ProcessValueString, m.Value)) && has(env, "match")
+//@    && env["matchLength"] == box(ProcessValueNumber, mk(ProcessValueNumber, len(m.Value))) && has(env, "matchLength")
+//@    && env["matchNumber"] == box(ProcessValueNumber, mk(ProcessValueNumber, m.MatchNumber)) && has(env, "matchNumber")
+//@    && (forall k Str :: { select(domain(env), k) } has(env, k) ==> k == "match" || k == "matchLength" || k == "matchNumber" || isStrVar(vars, k))
+//@    && (forall k Str :: { select(values(env), k) } has(env, k) && k != "match" && k != "matchLength" && k != "matchNumber" ==> env[k] == box(ProcessValueString, mk(ProcessValueString, (vars.Value[k] as ValueString).Value)))
+//@ func executeReplaceProcess [C05]
+//@   requires current_state != nil && varsOk(current_state.variables)
+//@   let r0 := replText(current_state.match)
+//@   modifies inferred
+//@   ensures step: fresh(result) && stepped(result, old(*current_state))
+//@   ensures extends: result.match.Replacement.hasValue && len(replText(result.match)) >= len(r0) && ssub(replText(result.match), 0, len(r0)) == r0
+//@   loop 1 invariant env != nil && fresh(env) && next_state != nil && fresh(next_state) && varsOk(current_state.variables)
+//@   loop 1 invariant strings: forall k Str :: { select(domain(env), k) } { select(values(env), k) } has(env, k) ==> isStrVar(current_state.variables, k) && env[k] == box(ProcessValueString, mk(ProcessValueString, (current_state.variables.Value[k] as ValueString).Value))
+//@   loop 1 invariant keys: forall j :: { keys[j] } 0 <= j && j < len(keys) ==> has(current_state.variables.Value, keys[j])
+//@   loop 2 invariant pstate.environment == env && fresh(env) && pstate.currentValue != nil && final_value != nil
+//@   loop 2 invariant first: rangeindex == -1 ==> envOf(env, current_state.variables, current_state.match)
+//@ func executeReplace [C05]
+//@   requires current_state != nil && i != nil && varsOk(current_state.variables)
+//@   modifies inferred
+//@   ensures string: i is bytecode.ReplaceString ==> fresh(result) && stepped(result, old(*current_state)) && replText(result.match) == old(replText(current_state.match)) ++ (i as bytecode.ReplaceString).Value
+//@   ensures variable: i is bytecode.ReplaceVariable ==> fresh(result) && stepped(result, old(*current_state)) && replText(result.match) == old(replText(current_state.match)) ++ varText(current_state.variables, (i as bytecode.ReplaceVariable).Name)
+//@   ensures process: i is bytecode.ReplaceProcess ==> fresh(result) && stepped(result, old(*current_state)) && len(replText(result.match)) >= len(old(replText(current_state.match))) && ssub(replText(result.match), 0, len(old(replText(current_state.match)))) == old(replText(current_state.match))
+
+// ---- replace commands end to end (C05: the replacement of every match; C06: the splice) ----
+// stepText: what instruction number k of the replacer program adds, for match m of total
+//@ pred stepText(C (Array Int Str), k Int, ri bytecode.ReplaceInstruction, m Match, total Int) :=
+//@    (ri is bytecode.ReplaceString ==> select(C, k + 1) == select(C, k) ++ (ri as bytecode.ReplaceString).Value)
+//@    && (ri is bytecode.ReplaceVariable ==> select(C, k + 1) == select(C, k) ++ replVar(m, total, (ri as bytecode.ReplaceVariable).Name))
+//@    && (ri is bytecode.ReplaceProcess ==> len(select(C, k + 1)) >= len(select(C, k)) && ssub(select(C, k + 1), 0, len(select(C, k))) == select(C, k))
+//@ pred destName(mode Int, filename Str) := mode == NEW ? filename ++ ".vored" : filename
+
+//@ func searchReplace [C05 C06]
+//@   noframe
+//@   modifies *
+//@   requires c != nil && reader != nil && rdInv(reader) && c.Skip >= 0 && c.Take >= 0 && c.Last >= 0 && (mode == NEW || mode == OVERWRITE || mode == NOTHING)
+//@   presumes insts: forall k :: { c.Replacer[k] } 0 <= k && k < len(c.Replacer) ==> c.Replacer[k] != nil
+//@   presumes view: mode == OVERWRITE ==> rdData(reader) == select(fs, filename) [C06]
+//@   let d := rdData(reader)
+//@   let fs0 := fs
+//@   let nr := len(c.Replacer)
+//@   ensures same: forall j :: { result[j] } 0 <= j && j < len(result) ==> matchOk(result[j], d, filename) [C05]
+//@   ensures replacement: forall j :: { result[j] } 0 <= j && j < len(result) ==> replText(result[j]) == select(select(R, j), nr) && select(select(R, j), 0) == "" && (forall k :: { c.Replacer[k] } 0 <= k && k < nr ==> stepText(select(R, j), k, c.Replacer[k], result[j], len(result))) [C05]
+//@   ensures nothing: mode == NOTHING ==> fs == fs0 [C06]
+//@   ensures splice: mode != NOTHING ==> fs == store(fs0, destName(mode, filename), select(S, len(result)) ++ ssub(d, select(O, len(result)), len(d))) [C06]
+//@   ensures recurrence: select(S, 0) == "" && select(O, 0) == 0 && (forall k :: { result[k] } 0 <= k && k < len(result) ==> select(S, k + 1) == select(S, k) ++ ssub(d, select(O, k), result[k].Offset.Start) ++ replText(result[k]) && select(O, k + 1) == result[k].Offset.End) [C06]
+//@   loop 1 ghost R (Array Int (Array Int Str)) := R ;; store(R, rangeindex, C)
+//@   loop 1 invariant shape: len(replacedMatches) == rangeindex + 1 && rangeindex < len(foundMatches) && (replacedMatches.ref != foundMatches.ref || len(foundMatches) == 0) && rdInv(reader) && rdData(reader) == d && fs == fs0
+//@   loop 1 invariant found: (forall j :: { foundMatches[j] } 0 <= j && j < len(foundMatches) ==> matchOk(foundMatches[j], d, filename) && varsOk(foundMatches[j].Variables) && !foundMatches[j].Replacement.hasValue) && (forall j :: { foundMatches[j] } { foundMatches[j + 1] } 0 <= j && j + 1 < len(foundMatches) ==> foundMatches[j].Offset.End <= foundMatches[j + 1].Offset.Start)
+//@   loop 1 invariant done: forall j :: { replacedMatches[j] } 0 <= j && j <= rangeindex ==> sameMatchBut(replacedMatches[j], foundMatches[j]) && replText(replacedMatches[j]) == select(select(R, j), nr) && select(select(R, j), 0) == "" && (forall k :: { c.Replacer[k] } 0 <= k && k < nr ==> stepText(select(R, j), k, c.Replacer[k], foundMatches[j], len(foundMatches)))
+//@   loop 2 ghost C (Array Int Str) := store(C, 0, "") ;; store(C, current_state.programCounter, replText(current_state.match))
+//@   loop 2 invariant state: current_state != nil && varsOk(current_state.variables) && 0 <= current_state.programCounter && current_state.programCounter <= nr && sameMatchBut(current_state.match, match) && fs == fs0
+//@   loop 2 invariant names: forall n Str :: { select(values(current_state.variables.Value), n) } { select(domain(current_state.variables.Value), n) } varText(current_state.variables, n) == replVar(match, len(foundMatches), n)
+//@   loop 2 invariant fold: select(C, current_state.programCounter) == replText(current_state.match) && select(C, 0) == "" && (forall k :: { c.Replacer[k] } 0 <= k && k < current_state.programCounter ==> stepText(C, k, c.Replacer[k], match, len(foundMatches)))
+//@   loop 2 decreases nr - current_state.programCounter
+//@   loop 3 ghost S (Array Int Str) := store(S, 0, "") ;; store(S, i, select(S, i - 1) ++ ssub(d, select(O, i - 1), replacedMatches[i - 1].Offset.Start) ++ replText(replacedMatches[i - 1]))
+//@   loop 3 ghost O (Array Int Int) := store(O, 0, 0) ;; store(O, i, replacedMatches[i - 1].Offset.Start + len(replacedMatches[i - 1].Value))
+//@   loop 3 invariant io: 0 <= i && i <= len(replacedMatches) && wInv(writer) && rdInv(replaceReader) && rdData(replaceReader) == d && reader.size == len(d) && (mode == NOTHING ? (!wIsFile(writer) && fs == fs0) : (wIsFile(writer) && wFile(writer).name == destName(mode, filename) && fs == store(fs0, destName(mode, filename), select(S, i)))) [C06]
+//@   loop 3 invariant apart: (mode == NOTHING ==> fresh((writer.contents as *files.MemoryStream).contents)) && (rdIsFile(replaceReader) ==> !fresh(rdBF(replaceReader).buffer)) [C06]
+//@   loop 3 invariant offsets: currentWriterOffset == len(select(S, i)) && lastReaderOffset == select(O, i) && 0 <= lastReaderOffset && lastReaderOffset <= len(d) && (i > 0 ==> lastReaderOffset == replacedMatches[i - 1].Offset.End) [C06]
+//@   loop 3 invariant recurrence: select(S, 0) == "" && select(O, 0) == 0 && (forall k :: { replacedMatches[k] } 0 <= k && k < i ==> select(S, k + 1) == select(S, k) ++ ssub(d, select(O, k), replacedMatches[k].Offset.Start) ++ replText(replacedMatches[k]) && select(O, k + 1) == replacedMatches[k].Offset.End) [C06]
+//@   loop 3 invariant matches: (forall j :: { replacedMatches[j] } 0 <= j && j < len(replacedMatches) ==> matchOk(replacedMatches[j], d, filename)) && (forall j :: { replacedMatches[j] } { replacedMatches[j + 1] } 0 <= j && j + 1 < len(replacedMatches) ==> replacedMatches[j].Offset.End <= replacedMatches[j + 1].Offset.Start)
+//@   loop 3 invariant c05: forall j :: { replacedMatches[j] } 0 <= j && j < len(replacedMatches) ==> replText(replacedMatches[j]) == select(select(R, j), nr) && select(select(R, j), 0) == "" && (forall k :: { c.Replacer[k] } 0 <= k && k < nr ==> stepText(select(R, j), k, c.Replacer[k], replacedMatches[j], len(replacedMatches))) [C05]
+//@   loop 3 decreases len(replacedMatches) - i
